@@ -3,7 +3,7 @@ import os
 import shutil
 import tempfile
 from . import common, models
-from .c08 import wellformed, unproxy, resave_case, empty_case, fresh_set_case
+from .c08 import wellformed, unproxy, resave_case, empty_case, fresh_set_case, several_packages_roundtrip
 
 
 def canon_json(roots):
@@ -301,6 +301,8 @@ def run(ctx):
             fresh_set_case(ctx, 'C09', k, tmp, 'json')
         for h in range(80 if ctx.quick() else 1500):
             resave_case(ctx, 'C09', h, tmp, 'json')
+        for k in range(24 if ctx.quick() else 400):
+            several_packages_roundtrip(ctx, k, tmp, fmt='json')
     finally:
         shutil.rmtree(tmp, ignore_errors=True)
 
